@@ -10,7 +10,7 @@ From Coq Require Import NArith ZArith List Bool.
 From ST Require Import Base.Outcome Base.Units Utf.Spec Utf.Tokens Utf.Model Utf.ProofsC01 Utf.ProofsC03 Utf.ApiCoverage.
 From ST Require Utf.LeafBridge Gen.Leaf.
 From ST Require Utf.LoopBridge Utf.LoopBridgeMeasure Utf.LoopBridgeConvert32 Utf.LoopBridgeConvert16To8.
-From ST Require Utf.SourceFit Utf.SourceFit2.
+From ST Require Utf.SourceFit Utf.SourceFit2 Utf.SourceFit3.
 Import ListNotations.
 Local Open Scope N_scope.
 
@@ -221,3 +221,31 @@ Proof.
     (fun A => ST.Utf.SourceFit2.utf16_to_utf32_source_passes_fit l m fuel A Hb Hf)).
 Qed.
 Print Assumptions decoding_source_passes_fit.
+
+(* the conversions to Latin-1 (every validation mode, both settings of substitute_out_of_range).  In the headers
+   latin_1_measure_from_utf8 / _utf16 forward to utf32_measure_from_utf8 / _utf16; utf32_to_latin_1 allocates `size` *)
+Theorem latin_1_target_source_passes_fit : forall l m (sub : bool) fuel, (length l < fuel)%nat ->
+  (all_lt 256 l = true -> (4 * Z.of_nat (length l) < 18446744073709551616)%Z ->
+     exists e ws n,
+        ST.Gen.Leaf.src_latin_1_convert_from_utf8 fuel (ST.Utf.LoopBridge.arr8s l) (Z.of_nat (length l)) (ST.Utf.LoopBridgeConvert32.mode_code m)
+          (ST.Gen.Leaf.b2z sub) = Some (Z.of_N (cerr_code e), ws) /\
+        ST.Gen.Leaf.src_utf32_measure_from_utf8 fuel (ST.Utf.LoopBridge.arr8s l) (Z.of_nat (length l)) = Some (Z.of_nat n) /\
+        (length ws <= n)%nat /\ (e = CSuccess -> length ws = n)) /\
+  (all_lt 65536 l = true -> (4 * Z.of_nat (length l) < 18446744073709551616)%Z ->
+     exists e ws n,
+        ST.Gen.Leaf.src_latin_1_convert_from_utf16 fuel (ST.Utf.LoopBridge.arr32 l) (Z.of_nat (length l)) (ST.Utf.LoopBridgeConvert32.mode_code m)
+          (ST.Gen.Leaf.b2z sub) = Some (Z.of_N (cerr_code e), ws) /\
+        ST.Gen.Leaf.src_utf32_measure_from_utf16 fuel (ST.Utf.LoopBridge.arr32 l) (Z.of_nat (length l)) = Some (Z.of_nat n) /\
+        (length ws <= n)%nat /\ (e = CSuccess -> length ws = n)) /\
+  (all_lt 4294967296 l = true ->
+     exists e ws,
+        ST.Gen.Leaf.src_latin_1_convert_from_utf32 fuel (ST.Utf.LoopBridge.arr32 l) (Z.of_nat (length l)) (ST.Utf.LoopBridgeConvert32.mode_code m)
+          (ST.Gen.Leaf.b2z sub) = Some (Z.of_N (cerr_code e), ws) /\
+        (length ws <= length l)%nat /\ (e = CSuccess -> length ws = length l)).
+Proof.
+  exact (fun l m sub fuel Hf => conj
+    (fun A Hb => ST.Utf.SourceFit3.utf8_to_latin_1_source_passes_fit l m sub fuel A Hb Hf)
+    (conj (fun A Hb => ST.Utf.SourceFit3.utf16_to_latin_1_source_passes_fit l m sub fuel A Hb Hf)
+          (fun A => ST.Utf.SourceFit3.utf32_to_latin_1_source_pass_fits l m sub fuel A Hf))).
+Qed.
+Print Assumptions latin_1_target_source_passes_fit.
